@@ -61,7 +61,12 @@ func (tm *tMap) markFieldFiltered(fieldName string) {
 // trackedMaps defines a type for tracking maps while processing event.
 type trackedMaps struct {
 	tracked map[uintptr]*tMap // a map of all tracked maps using each map's addr as the index
-	l       sync.RWMutex
+	// parent is set when these maps were found within a value of one of the
+	// parent's maps: a map the parent (or one of its parents) is tracking is
+	// filtered there on its own turn, with its already filtered fields left
+	// alone, so it is neither tracked nor filtered again here.
+	parent *trackedMaps
+	l      sync.RWMutex
 }
 
 // newTrackedMaps will create a new trackedMaps
@@ -77,6 +82,33 @@ func newTrackedMaps(tm ...*tMap) (*trackedMaps, error) {
 		}
 	}
 	return maps, nil
+}
+
+// newChild will create a new trackedMaps for the maps found within a value of
+// one of the maps being tracked.
+func (maps *trackedMaps) newChild(tm ...*tMap) (*trackedMaps, error) {
+	const op = "encrypt.(trackedMaps).newChild"
+	child := &trackedMaps{
+		tracked: make(map[uintptr]*tMap, len(tm)),
+		parent:  maps,
+	}
+	for i, m := range tm {
+		if err := child.trackMap(m); err != nil {
+			return nil, fmt.Errorf("%s: new map parameter #%d is not a valid: %w", op, i, err)
+		}
+	}
+	return child, nil
+}
+
+// trackedByParent reports whether the map is being tracked by one of the
+// parents.
+func (maps *trackedMaps) trackedByParent(ptr uintptr) bool {
+	for p := maps.parent; p != nil; p = p.parent {
+		if _, ok := p.getTracked(ptr); ok {
+			return true
+		}
+	}
+	return false
 }
 
 // trackMap will add the map to the list of tracked maps
@@ -112,6 +144,10 @@ func (maps *trackedMaps) trackMap(tm *tMap) error {
 			if _, ok := maps.tracked[ptr]; ok {
 				return
 			}
+			// is it tracked (and so filtered on its own turn) by a parent?
+			if maps.trackedByParent(ptr) {
+				return
+			}
 			maps.tracked[ptr] = tm
 		}()
 		return nil
@@ -124,8 +160,11 @@ func (maps *trackedMaps) trackMap(tm *tMap) error {
 // isn't being tracked.
 func (maps *trackedMaps) getTracked(ptr uintptr) (*tMap, bool) {
 	maps.l.RLock()
-	defer maps.l.RUnlock()
 	tm, ok := maps.tracked[ptr]
+	maps.l.RUnlock()
+	if !ok && maps.parent != nil {
+		return maps.parent.getTracked(ptr)
+	}
 	return tm, ok
 }
 
@@ -257,7 +296,7 @@ func (maps *trackedMaps) processUnfiltered(ctx context.Context, ef *Filter, filt
 						if f.Type() == reflect.TypeOf(structpb.Struct{}) {
 							f = f.FieldByName("Fields")
 						}
-						newMaps, err := newTrackedMaps()
+						newMaps, err := maps.newChild()
 						if err != nil {
 							return fmt.Errorf("%s: unable to create new tracked maps for slice: %w", op, err)
 						}
@@ -292,7 +331,7 @@ func (maps *trackedMaps) processUnfiltered(ctx context.Context, ef *Filter, filt
 				}
 
 			case fkind == reflect.Struct:
-				newMaps, err := newTrackedMaps()
+				newMaps, err := maps.newChild()
 				if err != nil {
 					return fmt.Errorf("%s: unable to create new tracked maps for slice: %w", op, err)
 				}
@@ -322,7 +361,7 @@ func (maps *trackedMaps) processUnfiltered(ctx context.Context, ef *Filter, filt
 					// filtered keys left alone.
 					continue
 				}
-				newMaps, err := newTrackedMaps(&tMap{value: field})
+				newMaps, err := maps.newChild(&tMap{value: field})
 				if err != nil {
 					return fmt.Errorf("%s: unable to filter map: %w", op, err)
 				}
